@@ -10,6 +10,7 @@ package xpath
 // ---------------------------------------------------------------------------
 // Shared predicates
 
+//@ define cur(t) = ite(is(t, *NodeIterator), as(t, *NodeIterator).node, itcur(ref(t)))
 //@ define valtype(v) = is(v, bool) || is(v, float64) || is(v, string) || is(v, query)
 
 // ---------------------------------------------------------------------------
@@ -49,10 +50,22 @@ package xpath
 //@ iface query.Select(t) result
 //@   requires t != nil
 //@   tree-frame                     // assumed: see DESIGN "ownership"
+//@   disjoint-operands              // assumed: see DESIGN "ownership"
+//@   ghost k(self) = ite(result != nil, old(k(self)) + 1, old(k(self)))
+//@   ghost epoch(self) = old(epoch(self))
+//@   ensures-assumed[stream-def] result != nil ==> pos(result) == spos(ref(self), epoch(self), old(k(self))) && old(k(self)) < slen(ref(self), epoch(self))
+//@   ensures-assumed[stream-def] result == nil ==> slen(ref(self), epoch(self)) == old(k(self))
+//@   ensures-assumed[stream-def] 0 <= old(k(self)) && old(k(self)) <= slen(ref(self), epoch(self))
 
 //@ iface query.Evaluate(t) result
 //@   requires t != nil
 //@   tree-frame
+//@   disjoint-operands
+//@   ghost k(self) = 0
+//@   ghost epoch(self) = old(epoch(self)) + 1
+//@   ghost ctxp(self) = old(pos(cur(t)))
+//@   ensures-assumed[query-value] is(result, query) ==> result == self
+//@   ensures-assumed[restart-deterministic] old(pos(cur(t))) == old(ctxp(self)) ==> slen(ref(self), epoch(self)) == slen(ref(self), old(epoch(self))) && forall(i, Int, spos(ref(self), epoch(self), i) == spos(ref(self), old(epoch(self)), i))
 //@   ensures[valtype@C15] valtype(result) || result == nil && is(self, nopQuery)
 
 //@ iface query.Clone() result
@@ -88,6 +101,7 @@ package xpath
 
 //@ field logicalQuery.Do(t, m, n) result
 //@   requires t != nil && valtype(m) && valtype(n)
+//@   requires[stream] (is(m, query) ==> 0 <= k(m) && k(m) <= slen(ref(m), epoch(m))) && (is(n, query) ==> 0 <= k(n) && k(n) <= slen(ref(n), epoch(n)))
 //@   ensures[valtype@C15] valtype(result)
 
 //@ field numericQuery.Do(t, m, n) result
@@ -495,8 +509,10 @@ package xpath
 // the package initialiser and never changes (no other function stores to
 // logicalFuncs: checked mechanically).
 //@ define cellOK(f, name, m, n, tm, tn) = fn(f) == fnid(name) ==> tm && tn
+//@ define streamOK(v) = is(v, query) ==> 0 <= k(v) && k(v) <= slen(ref(v), epoch(v))
 //@ field type logical(t, op, m, n) result
 //@   requires t != nil && valtype(m) && valtype(n)
+//@   requires[stream] streamOK(m) && streamOK(n)
 //@   requires fn(self) == fnid("cmpBooleanBoolean") ==> is(m, bool) && is(n, bool)
 //@   requires fn(self) == fnid("cmpBooleanAny") ==> is(m, bool) || is(n, bool)
 //@   requires fn(self) == fnid("cmpNumericNumeric") ==> is(m, float64) && is(n, float64)
@@ -527,27 +543,47 @@ package xpath
 //@ func cmpNumericNumeric
 //@   props C15 C07
 //@   conforms type logical
+//@   ensures[table@C07] result == cmpNum(op, as(m, float64), as(n, float64))
 //@ func cmpNumericString
 //@   props C15 C07
 //@   conforms type logical
+//@   ensures[nan@C07] result == cmpNum(op, as(m, float64), num(as(n, string)))
 //@ func cmpNumericNodeSet
 //@   props C15 C07
 //@   conforms type logical
+//@   theory stream
+//@   ensures[exists@C07] result == exists(i, Int, old(k(n)) <= i && i < slen(ref(n), epoch(n)) && cmpNum(op, as(m, float64), num(sval(n, i))))
+//@   loop 0 invariant epoch(n) == old(epoch(n)) && old(k(n)) <= k(n) && k(n) <= slen(ref(n), epoch(n))
+//@   loop 0 invariant forall(i, Int, old(k(n)) <= i && i < k(n) ==> !cmpNum(op, as(m, float64), num(sval(n, i))))
 //@ func cmpStringNumeric
 //@   props C15 C07
 //@   conforms type logical
+//@   ensures[nan@C07] result == cmpNum(op, num(as(m, string)), as(n, float64))
 //@ func cmpStringString
 //@   props C15 C07
 //@   conforms type logical
+//@   ensures[table@C07] result == cmpStr(op, as(m, string), as(n, string))
 //@ func cmpStringNodeSet
 //@   props C15 C07
 //@   conforms type logical
+//@   theory stream
+//@   ensures[exists@C07] op == "=" || op == "!=" ==> result == exists(i, Int, old(k(n)) <= i && i < slen(ref(n), epoch(n)) && cmpStr(op, as(m, string), sval(n, i)))
+//@   loop 0 invariant epoch(n) == old(epoch(n)) && old(k(n)) <= k(n) && k(n) <= slen(ref(n), epoch(n))
+//@   loop 0 invariant op == "=" || op == "!=" ==> forall(i, Int, old(k(n)) <= i && i < k(n) ==> !cmpStr(op, as(m, string), sval(n, i)))
 //@ func cmpNodeSetNumeric
 //@   props C15 C07
 //@   conforms type logical
+//@   theory stream
+//@   ensures[exists@C07] result == exists(i, Int, old(k(m)) <= i && i < slen(ref(m), epoch(m)) && cmpNum(op, num(sval(m, i)), as(n, float64)))
+//@   loop 0 invariant epoch(m) == old(epoch(m)) && old(k(m)) <= k(m) && k(m) <= slen(ref(m), epoch(m))
+//@   loop 0 invariant forall(i, Int, old(k(m)) <= i && i < k(m) ==> !cmpNum(op, num(sval(m, i)), as(n, float64)))
 //@ func cmpNodeSetString
 //@   props C15 C07
 //@   conforms type logical
+//@   theory stream
+//@   ensures[exists@C07] op == "=" || op == "!=" ==> result == exists(i, Int, old(k(m)) <= i && i < slen(ref(m), epoch(m)) && cmpStr(op, sval(m, i), as(n, string)))
+//@   loop 0 invariant epoch(m) == old(epoch(m)) && old(k(m)) <= k(m) && k(m) <= slen(ref(m), epoch(m))
+//@   loop 0 invariant op == "=" || op == "!=" ==> forall(i, Int, old(k(m)) <= i && i < k(m) ==> !cmpStr(op, sval(m, i), as(n, string)))
 //@ func cmpNodeSetNodeSet
 //@   props C15 C07
 //@   conforms type logical
@@ -802,3 +838,25 @@ package xpath
 //@   requires[regexp-cache@C15,C16] RegexpCache != nil && regexLoader(RegexpCache.load)
 //@   modifies heap(F:loadingCache.m), heap(F:loadingCache.reset), heap(M:map[interface{}]interface{}*)
 //@   ensures[nonnil@C15,C16] result1 == nil ==> result0 != nil
+
+// ---------------------------------------------------------------------------
+// Streams (ghost). For a query object q: epoch(q) counts its resets (Evaluate), k(q) the
+// nodes it has yielded since the last reset; spos(q, e, i) is the position of the i-th node
+// it yields in epoch e and slen(q, e) how many there are. The counters are history
+// variables maintained by the call rule (`ghost` clauses), so the first two ensures of
+// Select below are definitions of spos/slen, not assumptions; "exhausted stays exhausted"
+// is the one semantic assumption (proved per query type under C12).
+
+//@ define sval(q, i) = nav_value(spos(ref(q), epoch(q), i))
+//@ define cmpNum(op, a, b) = (op == "=" && a == b) || (op == "!=" && a != b) || (op == "<" && a < b) || (op == "<=" && a <= b) || (op == ">" && a > b) || (op == ">=" && a >= b)
+//@ define cmpStr(op, a, b) = (op == "=" && a == b) || (op == "!=" && a != b) || (op == "<" && strlt(a, b)) || (op == "<=" && !strlt(b, a)) || (op == ">" && strlt(b, a)) || (op == ">=" && !strlt(a, b))
+//@ define num(s) = ite(parsefloat_ok(s), parsefloat_val(s), nan())
+//@ define opKnown(op) = op == "=" || op == "!=" || op == "<" || op == "<=" || op == ">" || op == ">="
+//@ func cmpNumberNumberF
+//@   inline
+//@ func cmpStringStringF
+//@   inline
+//@ func cmpBooleanBooleanF
+//@   inline
+//@ func stringToNumber
+//@   inline
